@@ -60,6 +60,8 @@ func main() {
 					set["UNCAUGHT-PANIC:"+x.Panic] = true
 				case x.Deadlock:
 					set["DEADLOCK"] = true
+				case x.Livelock:
+					set["LIVELOCK"] = true
 				default:
 					set[result] = true
 				}
